@@ -327,7 +327,9 @@ def impl(case):
         refs.append(weakref.ref(o))
         return len(refs) - 1
 
-    gc.collect()
+    # everything that exists now (the driver's accumulated results included) is frozen, so that every gc.collect()
+    # of this case only looks at the objects of this case (otherwise the run is quadratic in the number of cases)
+    gc.freeze()
     gc.disable()
     try:
         with warnings.catch_warnings():
@@ -428,6 +430,7 @@ def impl(case):
             s.close()
     finally:
         gc.enable()
+        gc.collect()  # the garbage of this case goes before the next case freezes the heap
     return out
 
 
